@@ -30,6 +30,15 @@ PRELUDE = [
     ("decl", "mkp", None, ("fn", [("k", "int"), ("p", "bool")], OI,
         [("print", ("bin", "+", S("mkp"), V("k"))), ("if", V("p"), [("return", ("mcall", ("bin", "+", S(""), V("k")), "parse_int", []))], None),
          ("return", ("mcall", S("zz"), "parse_int", []))]), ()),
+    # optionals of list and class type, and a class with an optional field
+    ("class", "KO", [("o", ("opt", "int"))], [("o", ("opt", "int"))], [("setf", ("var", "self"), "o", V("o"))],
+     [("get_o", [], ("opt", "int"), [("return", ("field", ("var", "self"), "o"))]),
+      ("set_o", [("v", ("opt", "int"))], None, [("setf", ("var", "self"), "o", V("v"))])]),
+    ("decl", "mkl", None, ("fn", [("k", "int"), ("p", "bool")], ("opt", ("list", "int")),
+        [("print", ("bin", "+", S("mkl"), V("k"))), ("if", V("p"), [("decl", "res", ("list", "int"), ("list", [V("k"), V("k")]), ()), ("return", V("res"))], None), ("return", ("nil",))]), ()),
+    ("decl", "mko", None, ("fn", [("k", "int"), ("p", "bool")], ("opt", ("cls", "KO")),
+        [("print", ("bin", "+", S("mko"), V("k"))), ("if", V("p"), [("return", ("new", "KO", [V("k")]))], None), ("return", ("nil",))]), ()),
+    ("decl", "fbl", None, ("fn", [("k", "int")], ("list", "int"), [("print", ("bin", "+", S("fbl"), V("k"))), ("decl", "res", ("list", "int"), ("list", [V("k")]), ()), ("return", V("res"))]), ()),
     ("decl", "fb", None, ("fn", [("k", "int")], "int", [("print", ("bin", "+", S("fb"), V("k"))), ("return", V("k"))]), ()),
     ("decl", "fbs", None, ("fn", [("k", "int")], "str", [("print", ("bin", "+", S("fbs"), V("k"))), ("return", ("bin", "+", S("f"), V("k")))]), ()),
 ]
@@ -75,7 +84,8 @@ def gen_stmts(c, n, depth, in_loop=False):
         names = [x for x, b in c.vars.items() if b == base]
         ch = g.weighted([(3, "isnil"), (2, "get"), (4, "or"), (2, "getor"), (3 if names else 0, "unwrap_stmt"),
                          (3 if names else 0, "unwrap_if"), (1 if names and depth < 2 else 0, "unwrap_while"),
-                         (3 if names else 0, "assign"), (2, "eq"), (2 if depth < 2 else 0, "block"), (2, "decl")])
+                         (3 if names else 0, "assign"), (2, "eq"), (2 if depth < 2 else 0, "block"), (2, "decl"),
+                         (2, "listopt"), (2, "objopt"), (3, "field")])
         if ch == "isnil":
             e, s = opt_expr(c, base)
             c.seen.add(("isnil", s))
@@ -145,6 +155,62 @@ def gen_stmts(c, n, depth, in_loop=False):
             c.seen.add(("eq", s))
             plain = I(g.int(0, 3)) if base == "int" else S(g.choice(["s1", "s2", ""]))
             out.append(("print", ("bin", "==", e, plain) if g.chance(50) else ("bin", "==", plain, e)))
+        elif ch == "listopt":
+            g.label("optional-list")
+            p = g.chance(50)
+            e = ("call", V("mkl"), [I(c.key()), B(p)])
+            c.seen.add(("list-" + "x", "present" if p else "nil"))
+            k = g.choice(["isnil", "or", "unwrap", "get"])
+            if k == "isnil":
+                out.append(("print", ("bin", "==", e, ("nil",))))
+            elif k == "or":
+                out.append(("print", ("or", e, ("call", V("fbl"), [I(c.key())]))))
+            elif k == "unwrap":
+                lv = "lv%d" % c.key()
+                out.append(("decl", lv, ("opt", ("list", "int")), ("nil",), ()))
+                out.append(("if", ("unwrap", lv, e), [("print", ("mcall", ("get", V(lv)), "len", []))], [("print", S("no-list"))]))
+                out.append(("print", ("bin", "==", V(lv), ("nil",))))
+            else:
+                lv = "lg%d" % c.key()
+                out.append(("decl", lv, ("opt", ("list", "int")), e, ()))
+                out.append(("if", ("bin", "!=", V(lv), ("nil",)), [("print", ("get", V(lv)))], [("print", S("nil-list"))]))
+        elif ch == "objopt":
+            g.label("optional-object")
+            p = g.chance(50)
+            e = ("call", V("mko"), [I(c.key()), B(p)])
+            c.seen.add(("obj-x", "present" if p else "nil"))
+            ov = "ko%d" % c.key()
+            out.append(("decl", ov, ("opt", ("cls", "KO")), ("nil",), ()))
+            k = g.choice(["unwrap", "isnil", "get"])
+            if k == "unwrap":
+                out.append(("if", ("unwrap", ov, e), [("print", ("or", ("mcall", ("get", V(ov)), "get_o", []), fallback(c, "int")))], [("print", S("no-object"))]))
+            elif k == "isnil":
+                out.append(("decl", ov, None, e, ()))
+                out.append(("print", ("bin", "==", V(ov), ("nil",))))
+            else:
+                out.append(("decl", ov, None, e, ()))
+                out.append(("decl", "tmp%d" % c.key(), None, ("get", V(ov)), ()) if p or g.chance(20) else ("print", ("bin", "!=", V(ov), ("nil",))))
+        elif ch == "field":
+            g.label("optional-field")
+            present = g.chance(50)
+            fv = "fo%d" % c.key()
+            out.append(("decl", fv, None, ("new", "KO", [I(g.int(0, 9)) if present else ("nil",)]), ()))
+            c.seen.add(("field", "present" if present else "nil"))
+            for _ in range(g.int(1, 3)):
+                k = g.choice(["isnil", "or", "get", "set", "method", "eq"])
+                fld = ("field", V(fv), "o")
+                if k == "isnil":
+                    out.append(("print", ("bin", "==", fld, ("nil",))))
+                elif k == "or":
+                    out.append(("print", ("or", fld, fallback(c, "int"))))
+                elif k == "get":
+                    out.append(("if", ("bin", "!=", fld, ("nil",)), [("print", ("get", fld))], [("print", S("nil-field"))]))
+                elif k == "set":
+                    out.append(("expr", ("mcall", V(fv), "set_o", [I(g.int(0, 9)) if g.chance(50) else ("nil",)])))
+                elif k == "method":
+                    out.append(("print", ("or", ("mcall", V(fv), "get_o", []), fallback(c, "int"))))
+                else:
+                    out.append(("print", ("bin", "==", fld, I(g.int(0, 9)))))
         elif ch == "block":
             kind = g.weighted([(3, "if"), (2, "from"), (1, "else")])
             saved = dict(c.vars)
